@@ -36,7 +36,7 @@ def TIMEOUT(tier):
 def gen_cases(tier, seed):
     thorough = tier == "thorough"
     cases = []
-    n = 2000 if thorough else 40
+    n = 1200 if thorough else 40
     per = 25 if thorough else 4
     for i in range(n // per):
         for backend in ("mem", "sqlite"):
